@@ -207,7 +207,14 @@ def run(repo, rep, tier):
     items = [n for n in walk_no_nested(s2) if isinstance(n, ast.Call) and unparse(n.func) == 'Algorithms.Item']
     ok = len(items) == 1 and unparse(items[0].args[1]) == 'SSH2_KexDB.get_db()' and unparse(items[0].args[0]) == '2'
     rep.check('faults', 'Item db is the per-thread copy from SSH2_KexDB.get_db() (sees run-time rating edits)', ok, items[0] if items else s2, 'Algorithms.ssh2 does not use SSH2_KexDB.get_db()')
-    adds = sorted((unparse(n.args[0]), unparse(n.args[1])) for n in walk_no_nested(s2) if isinstance(n, ast.Call) and unparse(n.func) == 'item.add')
+    def _through_alias(e):
+        # a local bound once to an expression stands for that expression (item.add('kex', kex_algs) with kex_algs = self.ssh2kex.kex_algorithms)
+        if isinstance(e, ast.Name):
+            defs = [d for d in walk_no_nested(s2) if isinstance(d, ast.Assign) and len(d.targets) == 1 and isinstance(d.targets[0], ast.Name) and d.targets[0].id == e.id]
+            if len(defs) == 1:
+                return unparse(defs[0].value)
+        return unparse(e)
+    adds = sorted((unparse(n.args[0]), _through_alias(n.args[1])) for n in walk_no_nested(s2) if isinstance(n, ast.Call) and unparse(n.func) == 'item.add')
     want = sorted([("'kex'", 'self.ssh2kex.kex_algorithms'), ("'key'", 'self.ssh2kex.key_algorithms'), ("'enc'", 'self.ssh2kex.server.encryption'), ("'mac'", 'self.ssh2kex.server.mac')])
     rep.check('faults', 'advertised lists per category are the parsed lists the report renders', adds == want, s2, 'Algorithms.ssh2 categories: %s' % adds)
     # severity mapping
